@@ -854,10 +854,6 @@ theorem Coh_index (S : Schema) (P : Node → Prop) : ∀ (l : List NodeCtx), Coh
 /-- no state of a content automaton has two edges with the same label (what `dfa()` in content.py builds) -/
 def Det (S : Schema) : Prop := ∀ t q, (((S.dfa t).edgesOf q).map (·.1)).Nodup
 
-def detB (S : Schema) : Bool :=
-  (List.range S.nodes.size).all (fun t => (List.range (S.dfa t).size).all (fun q =>
-    decide ((((S.dfa t).edgesOf q).map (·.1)).Nodup)))
-
 theorem det_of_detB (S : Schema) (h : detB S = true) : Det S := by
   intro t q
   by_cases hq : q < (S.dfa t).size
